@@ -66,7 +66,9 @@ template <class T> static void numeric (Gen<T>& g, int it)
         Matrix33<T> m3 = e.toMatrix33 ();
         Matrix44<T> m4 = e.toMatrix44 ();
         Quat<T>     q  = e.toQuat ();
-        Matrix44<T> se; se.setEulerAngles (a);
+        // setEulerAngles on a matrix that held something else before (a projective, translated, scaled one): all 16 entries are set
+        Matrix44<T> se ((T) 2, (T) -3, (T) 0.5, (T) 0.25, (T) 7, (T) 1, (T) -2, (T) 0.5, (T) 3, (T) 4, (T) 5, (T) -1, (T) 9, (T) -8, (T) 6, (T) 2);
+        se.setEulerAngles (a);
         {
             Rec r ("emat"); r.str ("t", t); r.num ("code", ORDERS[oi]); r.raw ("a", jv ((Vec3<T>) e)); r.raw ("trig", trig<T> (e));
             r.raw ("m33", jv (m3)); r.raw ("m44", jv (m4)); r.raw ("q", jv (q)); r.raw ("mq", jv (q.toMatrix33 ())); r.raw ("seteuler", jv (se)); r.emit ();
